@@ -295,6 +295,53 @@ def h11_rabbit_paused(S):
             info=f"worker B ran {ran_b} within 1.5 s of the enqueue while worker A was saturated (expected {n_foreign} jobs)")
 
 
+def h11_plugin_markers(S):
+    """The testing plugin builds its worker from every `repid` marker that applies to a test (module, class, function):
+    the union of their routers' actors, the registration closest to the test winning a name."""
+    import pytest
+    from repid import Router
+    from repid.testing import plugin
+
+    levels = S.pick("marker_levels", 3) + 1                  # function only / + class / + module
+    shapes = [S.pick(f"level{i}_routers", 4) for i in range(levels)]    # 0: marker without routers=, 1: [ra], 2: [rb], 3: [ra2, rb] (ra2 re-registers a name)
+    fn_called = {}
+
+    def mk(name, tag):
+        r = Router()
+
+        async def fn():
+            fn_called[name] = tag
+
+        r.actor(name=name)(fn)
+        return r, tag
+
+    marks, expected = [], {}
+    for i, sh in enumerate(shapes):
+        rs = {0: None, 1: [mk("a", f"a@{i}")], 2: [mk("b", f"b@{i}")], 3: [mk("a", f"a2@{i}"), mk("b", f"b2@{i}")]}[sh]
+        marks.append(pytest.mark.repid(**({} if rs is None else {"routers": [r for r, _ in rs]})).mark)
+        for r, tag in (rs or []):
+            for nm in r.actors:
+                expected.setdefault(nm, None)
+
+    class Node:          # the two marker lookups of _pytest.nodes.Node, closest marker first
+        def iter_markers(self, name=None):
+            return iter([m for m in marks if name is None or m.name == name])
+
+        def get_closest_marker(self, name, default=None):
+            return next(self.iter_markers(name), default)
+
+    class Request:
+        node = Node()
+
+    build = plugin._construct_repid_router_from_markers
+    build = getattr(build, "_get_wrapped_function", lambda: getattr(build, "__wrapped__", build))()
+    router = build(Request())
+    S.cover("markers-combined")
+    S.check("worker-serves-the-union-of-all-marked-routers", set(router.actors) == set(expected),
+            info=f"markers (closest first) carry {[None if sh == 0 else ['a'] if sh == 1 else ['b'] if sh == 2 else ['a', 'b'] for sh in shapes]}, "
+                 f"the plugin's router has {sorted(router.actors)}")
+
+
 def h11_redis_window(S):
     """Redis: foreign messages filling one or more fetch windows in front of an own job do not hide it."""
     from repid import Job, Router, Worker
@@ -430,4 +477,9 @@ HARNESSES.append(
     Harness(name="H11-plugin", scenario=h10_plugin,
             bounds={"as H10-plugin": "run-on-enqueue testing mode: a job whose name is known but whose queue its actor does not serve starts no worker and is not run"},
             functions=["testing/modifiers.py:RunWorkerOnEnqueueModifier"], covers=["plugin-ran"]))
+HARNESSES.append(
+    Harness(name="H11-plugin-markers", scenario=h11_plugin_markers,
+            bounds={"markers applying to the test": "1..3 levels (function, class, module), each without routers=, with one router, or with two"},
+            functions=["testing/plugin.py:_construct_repid_router_from_markers"], covers=["markers-combined"],
+            stubs=["pytest's request.node replaced by an object with iter_markers/get_closest_marker over real Mark objects"]))
 ASSUMPTIONS = ["in-memory broker; Redis prefix filter exactness is proved under C07 (H07-names-injective: topic-prefix-filter-exact); RabbitMQ reject-requeue loop is server behaviour"]
